@@ -15,8 +15,8 @@ def run(rep, tier, seed):
                        "of a written file equals Chop(total, C); every edge replayed on the real File (delivered ids, "
                        "queue contents, output containers and header compared); real-scale sessions under seeded "
                        "random schedules must deliver the expected ids / produce one single output hash")
-    SC.model_and_replay(rep, "r", SC.read_grid(tier), "c07_r_" + tier, R_INV, liveness=False, key="read")
-    SC.model_and_replay(rep, "w", SC.write_grid(tier), "c07_w_" + tier, W_INV, liveness=False, key="write")
+    SC.model_and_replay(rep, "r", SC.read_grid(tier), "c07_r_" + tier, R_INV, liveness=False, key="read", refine=True)
+    SC.model_and_replay(rep, "w", SC.write_grid(tier), "c07_w_" + tier, W_INV, liveness=False, key="write", refine=True)
     nt = 3 if tier == "quick" else 12
     SC.trace_validate(rep, "r", m2_read(tier), "c07_Tr_" + tier, seed + 1, nt,
                       ["DeliveredIsPrefix", "PipelineOrder", "NullIsLast", "EofOnlyAfterLast", "DoneDeliveredAll", "StatsExact"], key="read")
